@@ -319,7 +319,12 @@ class RedshiftBinningFactory:
         if not isinstance(comov_edges, units.Quantity):
             comov_edges = comov_edges * units.Mpc
 
-        edges = z_at_value(self.cosmology.comoving_distance, comov_edges)
+        def comoving_distance(z):
+            # custom cosmologies return plain floats in Mpc
+            dist = self.cosmology.comoving_distance(z)
+            return dist if isinstance(dist, units.Quantity) else dist * units.Mpc
+
+        edges = z_at_value(comoving_distance, comov_edges)
         return Binning(edges.value, closed=closed)
 
     def logspace(
